@@ -66,6 +66,16 @@ def decl_variants(P='T', U='U'):
         D.static(single(T(P)), 'make', [arg(T(U, 1, '&'), 'u')], tpl=[D.tparam(U, UCONC)]),
         D.ctor('Foo', [arg(T(U), 'u'), arg(T(P), 'a')], tpl=[D.tparam(U, UCONC)]),
     ], tpl=[D.tparam(P, insts[0])])])])
+    # typedef'd instantiations: one typedef per selected argument, of a foreign (forward-declared) template, of a class
+    # template without list, and of a function template without list
+    out['fwdtd'] = ([P], lambda insts: [D.ns('gt', [D.fwd('Ext')] + [D.typedef(T('gt::Ext', t=[x]), 'Ext' + cap(iname(x))) for x in insts[0]] +
+                                                     [D.cls('Plain', [D.ctor('Plain')])])])
+    out['classtd'] = ([P], lambda insts: [D.ns('gt', [D.cls('Box', [D.ctor('Box', [arg(T(P, 1, '&'), 'a')]), D.method(single(T(P)), 'get', [], 1),
+                                                                     D.method(single(T(P + '::Value')), 'scoped', [arg(T(V, 1, '&', [T(P)]), 'vals')]),
+                                                                     D.static(single(T('This')), 'Create', [])], tpl=[D.tparam(P)])] +
+                                                       [D.typedef(T('gt::Box', t=[x]), 'Box' + cap(iname(x))) for x in insts[0]])])
+    out['functd'] = ([P], lambda insts: [D.ns('gt', [D.func(single(T(P)), 'mk', [arg(T(P, 1, '&'), 'a'), arg(T(V, t=[T(P)]), 'b')], tpl=[D.tparam(P)])] +
+                                                      [D.typedef(T('gt::mk', t=[x]), 'mk' + cap(iname(x))) for x in insts[0]])])
     return out
 
 
@@ -160,7 +170,8 @@ def check_select(case):
     except Exception as e:
         return {'viol': [{'sig': 'C13|%s|exception|%s' % (variant, type(e).__name__),
                           'msg': '%s: %s\n--- input ---\n%s' % (type(e).__name__, str(e)[:300], text)}]}
-    base = {'class1': 'Foo', 'class2': 'Foo', 'func1': 'fun', 'func2': 'fun2', 'member': 'Foo'}[variant]
+    base = {'class1': 'Foo', 'class2': 'Foo', 'func1': 'fun', 'func2': 'fun2', 'member': 'Foo', 'fwdtd': 'Ext', 'classtd': 'Box',
+            'functd': 'mk'}[variant]
     ncmp = 0
     for combo in itertools.product(*sel):
         name = base + ''.join(cap(iname(pool(i)[j])) for i, j in enumerate(combo))
@@ -190,7 +201,7 @@ def _first_diff(a, b):
     return 'lengths %d vs %d' % (len(a), len(b))
 
 
-RENAMES = [('T', 'POINT'), ('X', 'POINX'), ('Q', 'R'), ('ZZ', 'YY'), ('T9', 'U9'), ('_t', '_u'), ('U', 'T'), ('Foo_', 'fun_'), ('a', 'b'), ('Valu', 'Othe'), ('e', 'r')]
+RENAMES = [('ThisPose', 'BaseOfThis'), ('This_', 'NotThis'), ('T', 'POINT'), ('X', 'POINX'), ('Q', 'R'), ('ZZ', 'YY'), ('T9', 'U9'), ('_t', '_u'), ('U', 'T'), ('Foo_', 'fun_'), ('a', 'b'), ('Valu', 'Othe'), ('e', 'r')]
 
 
 def check_rename(case):
